@@ -33,7 +33,7 @@ PROPOSED_KNOWN = []
 def own_coq_build():
     """Until integrated in _CoqProject: compile our own .v files if stale."""
     th = os.path.join(common.COQDIR, "theories")
-    order = ["Solvers/CG.v", "Solvers/CGLS.v", "Solvers/CGLSFacts.v", "Solvers/CGLSMono.v", "Corr/CheckC09.v"]
+    order = ["Solvers/CG.v", "Solvers/CGLS.v", "Solvers/CGLSFacts.v", "Solvers/CGLSMono.v", "Corr/CheckC09.v", "Solvers/LSQR.v", "Corr/CheckLSQR.v"]
     proj = open(os.path.join(common.COQDIR, "_CoqProject")).read()
     prev = max(os.path.getmtime(os.path.join(th, f)) for f in ("Base/Mat.vo", "Inst/GaussField.vo", "Corr/Check.vo"))
     for rel in order:
@@ -554,6 +554,17 @@ def run(tier, pid="C09"):
             bad, ncmp, info = [("error", "%s: %s" % (type(e).__name__, e))], 0, {}
         lres.append((bad, ncmp, info))
     t_py = time.time() - t0
+    # LSQR class vs its Gallina model (Solvers/LSQR.v) with supplied-and-checked square roots
+    from . import c09_lsqr
+    nsd = {"quick": 1, "thorough": 3}[tier]
+    systems = [{"kind": L["kind"], "A": L["A"], "y": L["y"], "x0r": L["x0"], "seed": L["seed"]} for L in lsq
+               if not L["cplx"] and L["x0k"] == "rand" and L["damp"] == 0.0 and L["niter"] == 0 and L["seed"] < nsd]
+    systems += [{"kind": "breakdown:" + nm, "A": A, "y": y, "x0r": np.ones(A.shape[1]), "seed": 0}
+                for nm, A, y in breakdown_systems(False) if nm in ("2I", "diag,e2", "tall,col")]
+    lm_cases = c09_lsqr.build(systems)
+    t1 = time.time()
+    lm_outs, lm_codes, lm_files = c09_lsqr.evaluate(pid + "lsqr", lm_cases)
+    t_lm = time.time() - t1
     codes, t_coq, nfiles, kases = coq_eval(pid, cases, outs)
     # code 30 is informational: borderline stopping decision (exact kold within rounding noise of tol) and the
     # implementation's iteration count differs from the exact model's; counted, never a failure
@@ -562,7 +573,8 @@ def run(tier, pid="C09"):
     codes = {i: cs for i, cs in codes.items() if cs}
     kinfo = {k["kid"]: {"nconv": k["nconv"], "nruns": len(k["runs"])} for k in kases}
     res = {"cases": cases, "outs": outs, "codes": codes, "lsq": lsq, "lres": lres, "t_python": t_py, "t_coq": t_coq,
-           "nfiles": nfiles, "kinfo": kinfo, "borderline": borderline}
+           "nfiles": nfiles, "kinfo": kinfo, "borderline": borderline,
+           "lm_cases": lm_cases, "lm_outs": lm_outs, "lm_codes": lm_codes, "lm_files": lm_files, "t_lm": t_lm}
     try:
         pickle.dump(res, open(cf, "wb"))
     except Exception:
@@ -738,6 +750,31 @@ def report(pid, tier, extra=None):
         for kind, detail in bad:
             if kind in kinds:
                 R.violation("lsqr %s: %s [%s]" % (kind, detail, describe(L)), replay_dict(L, kind, detail))
+    # LSQR class vs Gallina model
+    from . import c09_lsqr
+    lm_n, lm_ok, lm_steps = 0, 0, 0
+    for c in res["lm_cases"]:
+        o = res["lm_outs"][c["id"]]
+        lm_n += 1
+        evals += 1
+        if "error" in o:
+            R.violation("LSQR manual drive raised: %s [%s]" % (o["error"], describe(c)), replay_dict(c, "error", o["error"]))
+            continue
+        lm_steps += len(o["steps"])
+        if o["steps"]:
+            nontriv.add(("lsqr-model", c["id"]))
+        cs = set(res["lm_codes"].get(c["id"], [])) & c09_lsqr.CODES[pid]
+        if not cs:
+            lm_ok += 1
+            continue
+        bad, _, _ = lsqr_checks(c["A"], c["y"], c["x0"], c["damp"], max(c["K"], 1))
+        hit = [b for b in bad if b[0] in kinds]
+        if hit:
+            R.violation("lsqr %s: %s [%s]" % (hit[0][0], hit[0][1], describe(c)), replay_dict(c, hit[0][0], hit[0][1]))
+        else:
+            R.violation("correspondence of pylops LSQR with the Coq model (Solvers/LSQR.v) broken (%s) and no input violating the property "
+                        "itself was found [%s]" % ("; ".join(c09_lsqr.CODE_TXT[k] for k in sorted(cs)), describe(c)),
+                        dict(replay_dict(c, "lsqr-model", sorted(cs)), broken="Corr.CheckLSQR codes %s" % sorted(cs)), no_input=True)
     ex = extra(R, tier) if extra else None
     if ex:
         evals += ex["n"]
@@ -748,8 +785,12 @@ def report(pid, tier, extra=None):
                               "niter_outer in {0,1,2,8}; sigma in {1e-10, 0.35||y||}; functional omp(), class OMP.solve() with Callbacks, manual setup/step, same numpy seed")
         R.samples.append(ex["sample"])
     R.cov.update(
-        obligations=len(thms) + corr_all + nl + (ex["n"] if ex else 0),
-        discharged=len(thms) + corr_ok + sum(1 for b, _, _ in res["lres"] if not [x for x in b if x[0] in kinds]) + (ex["ok"] if ex else 0),
+        obligations=len(thms) + corr_all + nl + lm_n + (ex["n"] if ex else 0),
+        discharged=len(thms) + corr_ok + sum(1 for b, _, _ in res["lres"] if not [x for x in b if x[0] in kinds]) + lm_ok + (ex["ok"] if ex else 0),
+        lsqr_model_cases=lm_n, lsqr_model_steps=lm_steps, lsqr_model_coq_files=res["lm_files"], t_lsqr_model=round(res["t_lm"], 1),
+        lsqr_model_rule="pylops LSQR driven by setup + step on real integer systems (square, tall, wide, exact-breakdown), x0 in {None, random}, "
+                        "damp in {0, 0.5, 3}, k <= min(m, n) and within the data-determined iterations; the norms computed by the implementation are "
+                        "supplied to the model as square roots and CHECKED in Coq (0 <= m, |m^2 - v| <= 1e-9 (1 + v)); x, u, v, w, 11 scalars and cost compared at 1e-9",
         checker_cmd="make -C coq; coqc Solvers/CG.v Solvers/CGLS.v Corr/CheckC09.v; coqc Props/%s.v (Print Assumptions); "
                     "coqc .work/<pid>/cases_*.v (vm_compute: pylops cg/cgls runs vs the Gallina model over Qc / Gaussian Qc); "
                     "pylops.lsqr vs scipy.sparse.linalg.lsqr(iter_lim=k) per iteration" % pid,
@@ -764,7 +805,8 @@ def report(pid, tier, extra=None):
                         "iterates, cost, r1/r2 and all implementation-only truth checks are still compared",
         cg_cgls_runs=len(cases), runs_compared_in_coq=corr_all, systems_with_exact_convergence_certificate=ncert,
         lsqr_runs=nl, lsqr_scipy_comparisons=ncmp, distribution=dist, coq_files=res["nfiles"],
-        modelled="CG, CGLS (setup/step/run/finalize/solve) in Gallina; LSQR is NOT modelled (oracle: scipy.sparse.linalg.lsqr)",
+        modelled="CG, CGLS (setup/step/run/finalize/solve) and LSQR (setup/step, square roots supplied and checked; istop tests and var not modelled) "
+                 "in Gallina; scipy.sparse.linalg.lsqr remains the oracle for the iteration-for-iteration clause",
         t_python=round(res["t_python"], 1), t_coq=round(res["t_coq"], 1), proposed_known=[k["id"] for k in PROPOSED_KNOWN])
     for c in cases[:: max(1, len(cases) // 5)]:
         o = outs[c["id"]]
